@@ -5,10 +5,10 @@ C08 — Export lookups agree with the export tables for every table shape.
 `y : By` ranges over every value of the model's `By` (any view: PE32 / PE32+, file / mapped, any
 image bytes, any offsets and counts), `q` over all byte strings, ordinals / hints / indices over all
 naturals.  `tablesOf y` are the abstract tables a `By` denotes (null sub-table = empty list),
-`cstrOf v rva` the C string the view reads at `rva`, `Export.abs` forgets the reference.
-The functional theorems need no hypothesis at all; the reference theorems need `y.WF`, which
-`Exports::by` establishes (`C08_by`).  The format agnostic wrappers run the same code on the view
-chosen by `wrapFromBytes` (C07), so every statement covers them (`C08_wrappers`).
+`cstrOf v rva` the C string the view reads at `rva`, `Export.abs` forgets the reference,
+`y.nameStr h` is the name of hint `h` as bytes.  The functional theorems need no hypothesis at all;
+the reference theorems need `y.WF`, which `Exports::by` establishes (`C08_by`).  The format agnostic
+wrappers run the same code on the view chosen by `wrapFromBytes` (`C08_wrappers`).
 -/
 namespace Pelite.Exports
 open Pelite.Pe
@@ -50,21 +50,24 @@ theorem C08_null_tables_empty (e : Exports) (y : By) (h : e.by = .ok y) :
       unfold Exports.functions; rw [h0]
       exact dervaSlice_null _ _ _ _ (by unfold Exports.nFns; omega)
     rw [this, mkTab_null] at hf
-    cases hf
+    show (List.range y.fns.cnt).map y.fnAt = []
+    rw [← Out.ok.inj hf]
     rfl
   · intro h0
     have : e.names = .err .null := by
       unfold Exports.names; rw [h0]
       exact dervaSlice_null _ _ _ _ (by unfold Exports.nNames; omega)
     rw [this, mkTab_null] at hn
-    cases hn
+    show (List.range y.names.cnt).map y.nameAt = []
+    rw [← Out.ok.inj hn]
     rfl
   · intro h0
     have : e.nameIndices = .err .null := by
       unfold Exports.nameIndices; rw [h0]
       exact dervaSlice_null _ _ _ _ (by unfold Exports.nNames; omega)
     rw [this, mkTab_null] at hi
-    cases hi
+    show (List.range y.idx.cnt).map y.idxAt = []
+    rw [← Out.ok.inj hi]
     rfl
 
 /-! ### lookups: the entry the tables denote -/
@@ -96,7 +99,7 @@ theorem C08_index_refs (y : By) (i : Nat) (x : Export) (h : y.index i = .ok x) :
       intro h0
       have hs : y.exp.symbolFromRva (y.fns.off + 4 * i) = .err .null := by
         unfold Exports.symbolFromRva
-        rw [if_pos h0]
+        exact if_pos h0
       rw [hs] at h
       cases h
   · cases h
@@ -147,22 +150,226 @@ theorem C08_name_sorted (y : By) (q : List Nat) (hs : y.checkSorted = .ok true) 
   · exact ⟨fun _ => hnull, fun ⟨h, hq⟩ => absurd hq (hne h)⟩
   · exact ⟨fun hne => absurd he (hne h), fun _ => ⟨h, hh, he, hres⟩⟩
 
-/-- The literal reading "`name q` = Null ↔ `q` ∉ names" holds from right to left only: a name whose
-entry is a hole (RVA 0) is found and the *entry* is reported as Null.  Strongest true variant. -/
-theorem C08_name_null_iff_partial (y : By) (q : List Nat) (hs : y.checkSorted = .ok true) :
-    y.name q = .err .null ↔
-      ((∀ h, y.nameStr h ≠ .ok q) ∨ ∃ h, h < y.names.cnt ∧ y.nameStr h = .ok q ∧ y.hint h = .err .null) := by
-  rcases name_sorted y q ((checkSorted_true_iff y).1 hs) with ⟨hne, hnull⟩ | ⟨h, hh, he, hres⟩
-  · exact ⟨fun _ => .inl hne, fun _ => hnull⟩
-  · constructor
-    · intro hn; exact .inr ⟨h, hh, he, by rw [← hres]; exact hn⟩
-    · rintro (hne | ⟨h', hh', he', hn'⟩)
-      · exact absurd he (hne h)
-      · -- sorted: every hint whose name is q has... only the found one matters when names are distinct;
-        -- in general the found hint may differ from h', so go through the answer itself
-        rw [hres]
-        by_cases heq : h = h'
-        · rw [heq]; exact hn'
-        · exact (C08_name_null_aux y q h h' hres hn' he he' hs heq)
+/-- On ANY table — unsorted, duplicated, with unreadable names — the binary search never answers an
+entry of a different name: an `Ok` answer is `hint h` for an `h` whose name is `q`.  (What an unsorted
+table loses is completeness only: an existing name may be reported as Null.) -/
+theorem C08_name_sound (y : By) (q : List Nat) (x : Export) (h : y.name q = .ok x) :
+    ∃ hn, hn < y.names.cnt ∧ y.nameStr hn = .ok q ∧ y.hint hn = .ok x :=
+  nameLoop_ok y q 0 y.names.cnt x h
+
+/-- The literal reading "`name q` = Null ↔ `q` ∉ names" holds from right to left only
+(`C08_name_sorted`): a name whose entry is a hole (RVA 0) is found, and its *entry* is reported as
+Null (`C08_name_null_iff_counterexample`).  Strongest true variant of the left-to-right direction. -/
+theorem C08_name_null_partial (y : By) (q : List Nat) (hs : y.checkSorted = .ok true)
+    (hn : y.name q = .err .null) :
+    (∀ h, y.nameStr h ≠ .ok q) ∨ ∃ h, h < y.names.cnt ∧ y.nameStr h = .ok q ∧ y.hint h = .err .null := by
+  rcases name_sorted y q ((checkSorted_true_iff y).1 hs) with ⟨hne, _⟩ | ⟨h, hh, he, hres⟩
+  · exact .inl hne
+  · exact .inr ⟨h, hh, he, by rw [← hres]; exact hn⟩
+
+/-- Sorted without duplicates (`Spec.nameDetermined`): binary search and linear search are the same
+function, so lookup by name is the function `Spec.name` of the tables. -/
+theorem C08_name_eq_linear (y : By) (q : List Nat)
+    (hd : Spec.nameDetermined (tablesOf y) (cstrOf y.exp.v) = true) :
+    y.name q = y.nameLinear q ∧
+    mapOut (Export.abs y.b) (y.name q) = Spec.name (tablesOf y) (cstrOf y.exp.v) q :=
+  ⟨name_eq_nameLinear y q hd, name_abs y q hd⟩
+
+/-- hint_name h q: the hint's entry when the hint resolves and its name is `q`, else lookup by name. -/
+theorem C08_hint_name (y : By) (h : Nat) (q : List Nat) :
+    y.hintName h q = (if (y.hint h).isOk = true ∧ y.nameStr h = .ok q then y.hint h else y.name q) ∧
+    (Spec.nameDetermined (tablesOf y) (cstrOf y.exp.v) = true →
+      mapOut (Export.abs y.b) (y.hintName h q) = Spec.hintName (tablesOf y) (cstrOf y.exp.v) h q) :=
+  ⟨hintName_eq y h q, hintName_abs y h q⟩
+
+/-- import descriptor: `ByName { hint, name }` = hint_name, `ByOrdinal { ord }` = ordinal. -/
+theorem C08_import (y : By) (i : ImportQ) :
+    y.import i = (match i with | .byName h q => y.hintName h q | .byOrdinal o => y.ordinal o) ∧
+    (Spec.nameDetermined (tablesOf y) (cstrOf y.exp.v) = true →
+      mapOut (Export.abs y.b) (y.import i) =
+        match i with
+        | .byName h q => Spec.hintName (tablesOf y) (cstrOf y.exp.v) h q
+        | .byOrdinal o => Spec.ordinal (tablesOf y) (cstrOf y.exp.v) o) :=
+  ⟨by cases i <;> rfl, import_abs y i⟩
+
+/-- name_lookup i: `ByName` of the first hint whose index is `i` (with the name at that hint; Bounds
+if the name table is shorter), else `ByOrdinal((i + base) mod 2^16)`. -/
+theorem C08_name_lookup (y : By) (i : Nat) :
+    mapOut (Import.abs y.b) (y.nameLookup i) = Spec.nameLookup (tablesOf y) (cstrOf y.exp.v) i :=
+  nameLookup_abs y i
+
+/-- get_export: `exports()?.by()?` followed by the lookup. -/
+theorem C08_get_export (v : View) (q : Query) (x : Export) (h : getExport v q = .ok x) :
+    ∃ e y, tryFrom v = .ok e ∧ e.by = .ok y ∧ y.exp.v = v ∧ y.WF ∧
+      (match q with
+       | .name n => y.name n
+       | .ordinal o => y.ordinal o
+       | .import i => y.import i) = .ok x := getExport_ok h
+
+/-- get_proc_address: `rva_to_va` of the symbol's RVA; Null for a forwarder; the lookup's error otherwise. -/
+theorem C08_get_proc_address (v : View) (q : Query) :
+    getProcAddress v q =
+      Spec.procAddress v.imageBase (sizeOfImage v.b) v.fmt.vaLimit (mapOut (Export.abs v.b) (getExport v q)) :=
+  getProcAddress_abs v q
+
+/-- … so an address is answered for real symbols only, and it is image base + rva. -/
+theorem C08_get_proc_address_ok (v : View) (q : Query) (va : Nat) (h : getProcAddress v q = .ok va) :
+    ∃ r, getExport v q = .ok (.symbol r) ∧ va = v.imageBase + le32 v.b r.off ∧
+      0 < le32 v.b r.off ∧ le32 v.b r.off < sizeOfImage v.b ∧ va < v.fmt.vaLimit := by
+  unfold getProcAddress at h
+  obtain ⟨x, hx, h⟩ := bind_eq_ok h
+  cases x with
+  | forward c => cases h
+  | symbol r =>
+    refine ⟨r, hx, ?_⟩
+    dsimp only at h
+    unfold View.rvaToVa at h
+    split at h
+    · cases h
+    · split at h
+      · split at h
+        · cases h; exact ⟨rfl, by omega, by assumption, by assumption⟩
+        · cases h
+      · cases h
+
+/-! ### C01: every reference handed out lies inside the buffer and is aligned for its type -/
+
+theorem C08_refs_ok (y : By) (hw : y.WF) (x : Export) :
+    (∀ i, y.index i = .ok x → RefOK y.exp.v.img x.ref) ∧
+    (∀ o, y.ordinal o = .ok x → RefOK y.exp.v.img x.ref) ∧
+    (∀ h, y.hint h = .ok x → RefOK y.exp.v.img x.ref) ∧
+    (∀ q, y.nameLinear q = .ok x → RefOK y.exp.v.img x.ref) ∧
+    (∀ q, y.name q = .ok x → RefOK y.exp.v.img x.ref) ∧
+    (∀ h q, y.hintName h q = .ok x → RefOK y.exp.v.img x.ref) ∧
+    (∀ i, y.import i = .ok x → RefOK y.exp.v.img x.ref) ∧
+    (.ok x ∈ y.iter → RefOK y.exp.v.img x.ref) ∧
+    (∀ n, (n, .ok x) ∈ y.iterNames → RefOK y.exp.v.img x.ref) :=
+  ⟨fun _ h => (index_sound hw h).1, fun _ h => ordinal_sound hw h, fun _ h => hint_sound hw h,
+   fun _ h => nameLinearLoop_sound hw _ _ _ _ h, fun _ h => nameLoop_sound hw _ _ _ h,
+   fun _ _ h => hintName_sound hw h, fun _ h => import_sound hw h,
+   fun h => by
+     unfold By.iter at h
+     obtain ⟨i, hi, he⟩ := List.mem_map.1 h
+     have hi' := List.mem_range.1 hi
+     have : y.index i = .ok x := by unfold By.index; rw [if_pos hi']; exact he
+     exact (index_sound hw this).1,
+   fun n h => by
+     unfold By.iterNames at h
+     obtain ⟨i, _, he⟩ := List.mem_map.1 h
+     exact hint_sound hw (congrArg Prod.snd he)⟩
+
+theorem C08_name_refs_ok (y : By) (c : Ref) :
+    (∀ h, y.nameOfHint h = .ok c → RefOK y.exp.v.img c ∧ h < y.names.cnt) ∧
+    (∀ i h, y.nameLookup i = .ok (.byName h c) → RefOK y.exp.v.img c ∧ h < y.names.cnt) ∧
+    (∀ x, (.ok c, x) ∈ y.iterNames → RefOK y.exp.v.img c) ∧
+    (∀ i, .ok (.ok c, i) ∈ y.iterNameIndices → RefOK y.exp.v.img c) :=
+  ⟨fun _ h => nameOfHint_sound h, fun _ _ h => nameLookup_sound h,
+   fun x h => by
+     unfold By.iterNames at h
+     obtain ⟨i, _, he⟩ := List.mem_map.1 h
+     exact (nameOfHint_sound (congrArg Prod.fst he)).1,
+   fun i h => by
+     obtain ⟨hn, _, _, he⟩ := iterNameIndices_ok y _ h
+     have := Out.ok.inj he
+     exact (nameOfHint_sound (congrArg Prod.fst this).symm).1⟩
+
+theorem C08_get_export_ref_ok (v : View) (q : Query) (x : Export) (h : getExport v q = .ok x) :
+    RefOK v.img x.ref := getExport_sound h
+
+/-! ### C02 / C03: no panic, no unchecked access, no divergence — for ANY image bytes -/
+
+/-- Every operation of the module answers a value or a typed error on every view whatsoever: the
+binary search never indexes outside `names`, `upper - lower` never underflows and the loop ends;
+`is_forwarded`, `name_lookup` and `iter_name_indices` (format specific and wrapper) never overflow
+or index out of range. -/
+theorem C08_total (v : View) (e : Exports) (y : By) (q : List Nat) (n : Nat) (i : ImportQ) (g : Query) :
+    OkOrErr (tryFrom v) ∧ OkOrErr e.dllName ∧ OkOrErr e.functions ∧ OkOrErr e.names ∧
+    OkOrErr e.nameIndices ∧ OkOrErr e.by ∧ OkOrErr y.checkSorted ∧
+    OkOrErr (y.ordinal n) ∧ OkOrErr (y.index n) ∧ OkOrErr (y.hint n) ∧ OkOrErr (y.nameLinear q) ∧
+    OkOrErr (y.name q) ∧ OkOrErr (y.hintName n q) ∧ OkOrErr (y.import i) ∧
+    OkOrErr (y.nameOfHint n) ∧ OkOrErr (y.nameLookup n) ∧
+    OkOrErr (getExport v g) ∧ OkOrErr (getProcAddress v g) :=
+  ⟨tryFrom_okOrErr v, dllName_okOrErr e, functions_okOrErr e, names_okOrErr e, nameIndices_okOrErr e,
+   by_okOrErr e, checkSorted_okOrErr y, ordinal_okOrErr y n, index_okOrErr y n, hint_okOrErr y n,
+   nameLinear_okOrErr y q, name_okOrErr y q, hintName_okOrErr y n q, import_okOrErr y i,
+   nameOfHint_okOrErr y n, nameLookup_okOrErr y n, getExport_okOrErr v g, getProcAddress_okOrErr v g⟩
+
+/-- … and every item of the three iterators. -/
+theorem C08_iter_total (y : By) :
+    (∀ x ∈ y.iter, OkOrErr x) ∧ (∀ x ∈ y.iterNames, OkOrErr x.1 ∧ OkOrErr x.2) ∧
+    (∀ x ∈ y.iterNameIndices, ∃ h, h < y.names.cnt ∧ h < y.idx.cnt ∧ x = .ok (y.nameOfHint h, y.idxAt h)) :=
+  ⟨iter_okOrErr y, iterNames_okOrErr y, iterNameIndices_ok y⟩
+
+/-- The iterators enumerate the tables in order: `iter` is index 0, 1, …; `iter_names` is
+(name_of_hint h, hint h); `iter_name_indices` is (name_of_hint h, name_indices[h]) for the hints both
+tables have. -/
+theorem C08_iter (y : By) :
+    y.iter = (List.range y.fns.cnt).map y.index ∧
+    y.iterNames = (List.range y.names.cnt).map (fun h => (y.nameOfHint h, y.hint h)) ∧
+    y.iterNameIndices =
+      (List.range (min y.names.cnt y.idx.cnt)).map (fun h => .ok (y.nameOfHint h, y.idxAt h)) := by
+  refine ⟨?_, rfl, ?_⟩
+  · unfold By.iter
+    apply List.map_congr_left
+    intro i hi
+    unfold By.index
+    rw [if_pos (List.mem_range.1 hi)]
+  · unfold By.iterNameIndices
+    apply List.map_congr_left
+    intro h hh
+    have := List.mem_range.1 hh
+    rw [if_pos (by omega)]
+
+/-- The wrappers (`src/wrap/exports.rs`) dispatch on the format of the view `wrapFromBytes` chose and
+call the code above: a wrapped view is a format specific view of the same buffer. -/
+theorem C08_wrappers (k : Kind) (img : Img) (v : View) (h : wrapFromBytes k img = .ok v) :
+    fromBytes v.fmt k img = .ok v := wrap_ok_imp k img v h
+
+/-! ### non-vacuity: a 278-byte PE32 image with an export directory at 192
+(base 5; functions `[0x10, 0 (hole), 274 → "k.f" (forwarder, inside the extent 192..278), 0x20]`;
+names `"a","b","c"` with indices `[0, 1, 3]`) -/
+
+def demoImg : Img := ⟨#[
+    77, 90, 0, 0, 0, 0, 0, 0, 0, 0, 0, 0, 0, 0, 0, 0, 0, 0, 0, 0, 0, 0, 0, 0, 0, 0, 0, 0, 0, 0, 0,
+    0, 0, 0, 0, 0, 0, 0, 0, 0, 0, 0, 0, 0, 0, 0, 0, 0, 0, 0, 0, 0, 0, 0, 0, 0, 0, 0, 0, 0, 64, 0, 0,
+    0, 80, 69, 0, 0, 76, 1, 0, 0, 0, 0, 0, 0, 0, 0, 0, 0, 0, 0, 0, 0, 104, 0, 2, 33, 11, 1, 0, 0, 0,
+    0, 0, 0, 0, 0, 0, 0, 0, 0, 0, 0, 0, 0, 0, 0, 0, 0, 0, 0, 0, 0, 0, 0, 0, 0, 64, 0, 0, 0, 0, 0, 0,
+    0, 0, 0, 0, 0, 0, 0, 0, 0, 0, 0, 0, 0, 0, 0, 0, 0, 0, 0, 22, 1, 0, 0, 192, 0, 0, 0, 0, 0, 0, 0,
+    0, 0, 0, 0, 0, 0, 0, 0, 0, 0, 0, 0, 0, 0, 0, 0, 0, 0, 0, 0, 0, 0, 0, 0, 1, 0, 0, 0, 192, 0, 0,
+    0, 86, 0, 0, 0, 0, 0, 0, 0, 0, 0, 0, 0, 0, 0, 0, 0, 10, 1, 0, 0, 5, 0, 0, 0, 4, 0, 0, 0, 3, 0,
+    0, 0, 232, 0, 0, 0, 248, 0, 0, 0, 4, 1, 0, 0, 16, 0, 0, 0, 0, 0, 0, 0, 18, 1, 0, 0, 32, 0, 0, 0,
+    12, 1, 0, 0, 14, 1, 0, 0, 16, 1, 0, 0, 0, 0, 1, 0, 3, 0, 100, 0, 97, 0, 98, 0, 99, 0, 107, 46,
+    102, 0], 0⟩
+
+def demoView : View := ⟨demoImg, .pe32, .view, 0x400000⟩
+def demoExp : Exports := ⟨demoView, 192, 86, 192⟩
+def demoBy : By := ⟨demoExp, ⟨232, 4, false⟩, ⟨248, 3, false⟩, ⟨260, 3, false⟩⟩
+
+/-- the image is accepted, and `exports()?.by()?` yields `demoBy` -/
+example : (fromBytes .pe32 .view demoImg).isOk = true ∧
+    (tryFrom demoView).bind (fun e => e.by.bind fun y => .ok (e.ddVA, e.ddSize, e.off, y.fns, y.names, y.idx)) =
+      .ok (192, 86, 192, ⟨232, 4, false⟩, ⟨248, 3, false⟩, ⟨260, 3, false⟩) := by decide +kernel
+
+example : demoBy.WF :=
+  ⟨by unfold Tab.OK; decide +kernel, by unfold Tab.OK; decide +kernel, by unfold Tab.OK; decide +kernel⟩
+
+/-- the hypotheses of the name theorems hold on it, and the lookups give the expected entries -/
+example : demoBy.checkSorted = .ok true ∧ Spec.nameDetermined (tablesOf demoBy) (cstrOf demoView) = true ∧
+    demoBy.ordinal 4 = .err .bounds ∧ demoBy.ordinal 5 = .ok (.symbol ⟨232, 4, 4⟩) ∧
+    demoBy.ordinal 6 = .err .null ∧ demoBy.ordinal 7 = .ok (.forward ⟨274, 4, 1⟩) ∧
+    demoBy.ordinal 9 = .err .bounds ∧
+    demoBy.name [97] = .ok (.symbol ⟨232, 4, 4⟩) ∧ demoBy.name [99] = .ok (.symbol ⟨244, 4, 4⟩) ∧
+    demoBy.name [98, 98] = .err .null ∧ demoBy.nameLinear [99] = .ok (.symbol ⟨244, 4, 4⟩) ∧
+    demoBy.hintName 0 [99] = .ok (.symbol ⟨244, 4, 4⟩) ∧ demoBy.hintName 2 [99] = .ok (.symbol ⟨244, 4, 4⟩) ∧
+    demoBy.nameLookup 3 = .ok (.byName 2 ⟨272, 2, 1⟩) ∧ demoBy.nameLookup 2 = .ok (.byOrdinal 7) ∧
+    getProcAddress demoView (.name [97]) = .ok 0x400010 ∧
+    getProcAddress demoView (.ordinal 7) = .err .null ∧
+    mapOut (Export.abs demoView.b) (demoBy.ordinal 7) = .ok (.forward [107, 46, 102]) := by decide +kernel
+
+/-- "`name q` = Null ↔ `q` ∉ names" is false as written: `"b"` is a name (hint 1) of this sorted
+table, its entry is the hole functions[1] = 0, and `name "b"` answers Null. -/
+theorem C08_name_null_iff_counterexample :
+    demoBy.checkSorted = .ok true ∧ demoBy.nameStr 1 = .ok [98] ∧ demoBy.name [98] = .err .null ∧
+    demoBy.hint 1 = .err .null := by decide +kernel
 
 end Pelite.Exports
